@@ -80,6 +80,15 @@ impl Prop for C12 {
                         TagRule::Shift(d) => Some(t.0 + d),
                         TagRule::SkipBy(s) => t.0.checked_sub(s),
                         TagRule::Div(d) => Some(t.0 / d),
+                        TagRule::Retune { d_eff, at, d_new } => {
+                            if t.0 < at {
+                                Some(t.0 + d_eff)
+                            } else if d_new < d_eff && t.0 < at + (d_eff - d_new) {
+                                None
+                            } else {
+                                Some(t.0 + d_new)
+                            }
+                        }
                         TagRule::NotClaimed => None,
                     };
                     if let Some(i) = idx {
